@@ -97,6 +97,8 @@ CONTRACTS[F + "variable_window_radii"] = dict(
 _MK_PARAMS = dict(window="list[int[]]", target_ind="int", mask_index="int", normalize="bool", offset="int")
 _MK_PRE = ["offset >= 0", "len(window) >= 1", "0 <= target_ind and target_ind < len(window[0])"]
 _OFFLEN = "psum(cnt, min(offset, len(window)))"       # number of flattened elements in the first `offset` multisets
+_MASKED = ("implies(not is_none(mask_index), forall(0, {n}, lambda jj: forall(0, len(window[jj]), lambda q: "
+           "implies(window[jj][q] == mask_index, {arr}[psum(cnt, jj) + q] == 0))))")
 _MK_POST = [
     "len(result) == psum(cnt, len(window))",           # what the multiset event kernel assumes of its kernel functions
     "result[target_ind] == 0",                          # the target does not co-occur with its own occurrence
@@ -109,7 +111,15 @@ _MK_INV2 = [   # the weighting loop: ind is the flattened position of multiset i
     "forall(0, len(kernel_result), lambda p: kernel_result[p] >= 0)",
     "forall(0, min(ind, %s), lambda p: kernel_result[p] == 0)" % _OFFLEN,
     "forall(ind, len(kernel_result), lambda p: kernel_result[p] == 0)",
+    _MASKED.format(n="i", arr="kernel_result"),
 ]
+_MK_INV3 = _MK_INV2[:1] + ["ind == psum(cnt, i)", "ind + len(mset) <= len(kernel_result)", "i < len(window) and len(mset) == cnt[i]",
+                           "forall(0, len(kernel_result), lambda p: kernel_result[p] >= 0)",
+                           "forall(0, min(ind, %s), lambda p: kernel_result[p] == 0)" % _OFFLEN,
+                           "forall(ind + len(mset), len(kernel_result), lambda p: kernel_result[p] == 0)",
+                           _MASKED.format(n="i", arr="kernel_result"),
+                           # the part of the current multiset already scanned
+                           "forall(0, w_i, lambda q: implies(window[i][q] == mask_index, kernel_result[ind + q] == 0))"]
 CONTRACTS[F + "multi_flat_kernel"] = dict(
     params=_MK_PARAMS, variants=_KVARIANTS,
     local_types=dict(cnt="list[int]"),
@@ -121,10 +131,7 @@ CONTRACTS[F + "multi_flat_kernel"] = dict(
         "for#1": dict(invariant=["result_len == psum(cnt, _k_for1)"]),
         "for#2": dict(ghost_step=None, invariant=_MK_INV2 + [
             "implies(is_none(mask_index), forall(%s, ind, lambda p: kernel_result[p] == 1))" % _OFFLEN]),
-        "for#3": dict(invariant=_MK_INV2[:1] + ["ind == psum(cnt, i)", "ind + len(mset) <= len(kernel_result)",
-                                               "forall(0, len(kernel_result), lambda p: kernel_result[p] >= 0)",
-                                               "forall(0, min(ind, %s), lambda p: kernel_result[p] == 0)" % _OFFLEN,
-                                               "forall(ind + len(mset), len(kernel_result), lambda p: kernel_result[p] == 0)"]),
+        "for#3": dict(invariant=_MK_INV3),
     },
 )
 
@@ -134,14 +141,12 @@ CONTRACTS[F + "multi_geometric_kernel"] = dict(
     requires=_MK_PRE + ["power > 0"],
     returns="real[]",
     ghost_init="cnt = [len(m) for m in window]\nlemma(psum_monotone(cnt))",
-    ghost_after=[("@assign:ker", 1, "assert forall(0, len(ker), lambda k: ker[k] >= 0)")],
+    ghost_after=[("@assign:ker", 1, "assert forall(0, len(ker), lambda k: ker[k] > 0)")],
+    # (the "weights elsewhere are positive" clause that the flat kernel has is not stated here: its preservation took the solver minutes)
     ensures=_MK_POST,
     loops={
         "for#1": dict(invariant=["result_len == psum(cnt, _k_for1)"]),
-        "for#2": dict(invariant=_MK_INV2 + ["forall(0, len(ker), lambda k: ker[k] >= 0)"]),
-        "for#3": dict(invariant=_MK_INV2[:1] + ["ind == psum(cnt, i)", "ind + len(mset) <= len(kernel_result)",
-                                               "forall(0, len(kernel_result), lambda p: kernel_result[p] >= 0)",
-                                               "forall(0, min(ind, %s), lambda p: kernel_result[p] == 0)" % _OFFLEN,
-                                               "forall(ind + len(mset), len(kernel_result), lambda p: kernel_result[p] == 0)"]),
+        "for#2": dict(invariant=_MK_INV2 + ["forall(0, len(ker), lambda k: ker[k] > 0)"]),
+        "for#3": dict(invariant=_MK_INV3),
     },
 )
